@@ -1,3 +1,4 @@
+import MpsProps.Anchors.C20
 import MpsProofs.Start
 import Mps.StartTables
 import Mps.Drv.Start
